@@ -84,7 +84,7 @@ random.Random(SEED).shuffle(jobs)
 jobs = jobs[:MAX]
 print("%d mutants over %d files" % (len(jobs), len(by_file)), flush=True)
 out = []
-with ThreadPoolExecutor(6) as ex:
+with ThreadPoolExecutor(4) as ex:
     for r in ex.map(run_one, jobs):
         out.append(r)
         if r["status"] in ("SURVIVED",):
